@@ -191,7 +191,12 @@ where
             // tag is in the future; if it's "multiple", keep sending all tags in
             // between where we are now and payload.delivery_tag
             if payload.multiple {
-                let ret = (self.to_confirm)(self.parent.expected);
+                // a tag already confirmed on its own keeps that outcome
+                let ret = self
+                    .parent
+                    .out_of_order
+                    .remove(&self.parent.expected)
+                    .unwrap_or_else(|| (self.to_confirm)(self.parent.expected));
                 self.parent.expected += 1;
                 return Some(ret);
             } else {
